@@ -23,6 +23,7 @@ type profile struct {
 	dupVersions                                              bool  // batches may write the same key@version twice
 	valLen                                                   int   // > 0: values of about this length (fills tables faster)
 	tableSize                                                int64 // > 0: fixed BaseTableSize
+	finalCompact                                             bool  // flush and compact everything at the end, then scan all versions
 }
 
 var keySetA = [][]byte{[]byte("a"), []byte("ab"), []byte("abc"), []byte("b"), {'b', 0}, {'b', 0xff}, []byte("c"), {0}, {0xff}, {0xff, 0xff}, []byte("ba"), []byte("a\x00b")}
@@ -262,6 +263,36 @@ func runHistory(c *Ctx, p *profile) (*hist, error) {
 		default:
 			h.maxVersion()
 		}
+	}
+	if p.finalCompact {
+		for id := range h.txns {
+			h.discard(id)
+		}
+		if !p.managed {
+			// let the read watermark pass every commit
+			h.begin(nextT, false, 0)
+			h.discard(nextT)
+			nextT++
+			h.begin(nextT, false, 0)
+			h.discard(nextT)
+			nextT++
+		}
+		if err := h.flush(); err != nil {
+			return h, err
+		}
+		for i := 0; i < 3; i++ {
+			if _, err := h.compact(0, false, nil); err != nil {
+				return h, fmt.Errorf("final compact: %w", err)
+			}
+		}
+		at := uint64(0)
+		if p.managed {
+			at = mts + 1
+		}
+		h.begin(nextT, false, at)
+		h.iterate(nextT, itOpts{All: true}, nil)
+		h.discard(nextT)
+		nextT++
 	}
 	// final reads of every key by a fresh transaction, then a dump
 	at := uint64(0)
